@@ -21,7 +21,7 @@ EXTENDS Naturals, FiniteSets
 
 CONSTANTS Families,      \* subset of {"cart1", "cart2", "cart3", "polar", "spherical", "cylindrical"}
           ModeCounts,    \* set of requested mode counts
-          WidthOpts,     \* set of "none" | "given"
+          WidthOpts,     \* set of "none" | "given" | "zero" (a supplied width of exactly 0: a sharp but diffuse-class droplet)
           ThresholdRules \* only enumerated (the class must not depend on it)
 
 VARIABLES req,   \* [fam, modes, width, refine, thr, periodic]
@@ -50,7 +50,7 @@ Candidate ==
 
 Width ==
     /\ pc = "width"
-    /\ IF req.width = "given" THEN cls' = "DiffuseDroplet" /\ width' = "given" /\ conv' = TRUE
+    /\ IF req.width # "none" THEN cls' = "DiffuseDroplet" /\ width' = req.width /\ conv' = TRUE      \* also a width of exactly 0
        ELSE UNCHANGED <<cls, width, conv>>
     /\ pc' = "modes"
     /\ UNCHANGED <<req, namps, err>>
@@ -81,13 +81,13 @@ ExpectedClass ==
     IF req.modes > 0 THEN
         IF Dim(req.fam) = 2 THEN "PerturbedDroplet2D"
         ELSE IF req.fam = "cylindrical" THEN "PerturbedDroplet3DAxisSym" ELSE "PerturbedDroplet3D"
-    ELSE IF req.width = "given" \/ req.refine THEN "DiffuseDroplet"
+    ELSE IF req.width # "none" \/ req.refine THEN "DiffuseDroplet"
     ELSE "SphericalDroplet"
 ExpectedRaise == req.modes > 0 /\ Dim(req.fam) \notin {2, 3}
 
 ClassAsRequested == pc = "done" => cls = ExpectedClass
 ModesAsRequested == pc = "done" => namps = req.modes
-WidthCarried == (pc = "done" /\ ~req.refine /\ req.width = "given") => width = "given"
+WidthCarried == (pc = "done" /\ ~req.refine /\ req.width # "none") => width = req.width
 WidthUnsetOtherwise == (pc = "done" /\ ~req.refine /\ req.width = "none") => width = "none"
 RaisesOnlyDocumented == (pc = "raised") <=> (ExpectedRaise /\ pc \notin {"check"})
                         \/ (pc \in {"check"})
